@@ -46,9 +46,10 @@ func (d *defaultPacketLogger) LogRTPPacket(header *rtp.Header, payload []byte, a
 	select {
 	case d.rtpChan <- &rtpDump{
 		attributes: attributes,
+		// formatted later by the logger goroutine: the caller may reuse its header and buffers meanwhile
 		packet: &rtp.Packet{
-			Header:  *header,
-			Payload: payload,
+			Header:  header.Clone(),
+			Payload: append([]byte(nil), payload...),
 		},
 	}:
 	case <-d.close:
